@@ -179,6 +179,7 @@ pub fn run(case: &Value) -> Vec<Value> {
     if sched.len() == 1 {
         // byte level sweep: every single cut, and one byte at a time; only differing outputs are kept
         let mut diffs = Vec::new();
+        let mut cut_lost: Vec<usize> = Vec::new();
         // every single cut (a stride on very long bodies)
         let step = if body.len() > 3000 { body.len() / 400 } else { 1 };
         let mut c = 1;
@@ -186,6 +187,10 @@ pub fn run(case: &Value) -> Vec<Value> {
             let o = cat(&run_chunks(mk(), &headers, &[&body[..c], &body[c..]]));
             if o != whole {
                 diffs.push(json!([c, lossy(&o)]));
+                // conservation under this cut: stripping the inserted values must give back what the whole run gives
+                if strip(&lossy(&o), &values) != strip(&whole_s, &values) {
+                    cut_lost.push(c);
+                }
             }
             c += step;
         }
@@ -205,6 +210,9 @@ pub fn run(case: &Value) -> Vec<Value> {
         ev["cuts"] = json!(body.len().saturating_sub(1));
         ev["byte1"] = json!(lossy(&o1));
         ev["byte1_empty"] = json!(lossy(&o2));
+        ev["byte1_stripped"] = json!(strip(&lossy(&o1), &values));
+        ev["byte1_empty_stripped"] = json!(strip(&lossy(&o2), &values));
+        ev["cut_lost"] = json!(cut_lost);
         ev["ulens"] = json!(units.iter().map(|u| u.len()).collect::<Vec<usize>>());
     }
     vec![ev]
